@@ -26,6 +26,7 @@ def run(ctx) -> None:
     ctx.guard("C14.no-partial", no_partial)
     ctx.guard("C14.instructions", instructions)
     ctx.guard("C14.execute-pairing", to_worklist)
+    ctx.guard("C14.execute-guards", execute_guards)
     ctx.guard("C14.totals", totals)
     # to_worklist executes through transfer(): on both devices the dispensed liquid carries the source well's composition
     from . import c01
@@ -50,6 +51,10 @@ def run(ctx) -> None:
         ctx.reuse("C14.execute-steps", c07.step_block, dev)
         ctx.reuse("C14.execute-steps", c06.wiring, dev)
     ctx.reuse("C14.execute-steps", c02.ctor)
+    # to_worklist accepts every trough as stock / diluent: "is a trough" is decided by the virtual rows, for every labware
+    from . import c08
+
+    ctx.reuse("C14.execute-guards", c08.trough_predicate)
 
 
 def _init(ctx, rule):
@@ -515,3 +520,76 @@ def to_worklist(ctx) -> None:
         elif is_name(d_lab, "destination_plate"):
             seen.add("destination")
     ctx.rep.check({"stock", "diluent", "serial"} <= seen, rule, f"{f.qualname}/all-kinds", "stock, diluent and serial transfers are all executed", f"only {sorted(seen)} transfer kinds found in to_worklist", where=f.where())
+
+
+def execute_guards(ctx) -> None:
+    """to_worklist refuses a plate only when the *plan* does not fit: every raising test on the rows / columns of the dilution or
+    destination plate compares them with the plan's own R / C (helpers expanded; an attribute read of `.shape[k]` counts like
+    `.n_rows` / `.n_columns`)."""
+    rule = "C14.execute-guards"
+    f = ctx.prog.require_func("DilutionPlan.to_worklist", rule)
+    fv = ctx.fv(f)
+    selfn = f.params[0]
+    plates = ("dilution_plate", "destination_plate")
+
+    def dim_of(e):
+        """(plate, 'rows' | 'columns') when e reads a dimension of one of the plates"""
+        if isinstance(e, ast.Attribute) and isinstance(e.value, ast.Name) and e.value.id in plates and e.attr in ("n_rows", "n_columns"):
+            return e.value.id, "rows" if e.attr == "n_rows" else "columns"
+        if isinstance(e, ast.Subscript) and isinstance(e.value, ast.Attribute) and e.value.attr == "shape" and isinstance(e.value.value, ast.Name) and e.value.value.id in plates \
+                and isinstance(e.slice, ast.Constant) and e.slice.value in (0, 1):
+            return e.value.value.id, "rows" if e.slice.value == 0 else "columns"
+        return None
+
+    seen = {}
+    # the tests of the `if` statements that enclose each raise (with the branch taken), split into atoms
+    parents = {}
+    for p_ in ast.walk(f.node):
+        for ch in ast.iter_child_nodes(p_):
+            parents[id(ch)] = p_
+
+    def enclosing_atoms(stmt):
+        out = []
+        cur = stmt
+        while id(cur) in parents:
+            par = parents[id(cur)]
+            if isinstance(par, ast.If) and cur is not par.test:
+                pol = any(cur is x for x in par.body)
+
+                def split(e, p):
+                    if isinstance(e, ast.UnaryOp) and isinstance(e.op, ast.Not):
+                        split(e.operand, not p)
+                    elif isinstance(e, ast.BoolOp) and ((isinstance(e.op, ast.And) and p) or (isinstance(e.op, ast.Or) and not p)):
+                        for v_ in e.values:
+                            split(v_, p)
+                    else:
+                        out.append((e, p))
+
+                split(par.test, pol)
+            cur = par
+        return out
+
+    for rn in fv.cfg.nodes:
+        if rn.kind != "stmt" or not isinstance(rn.ast, ast.Raise):
+            continue
+        for raw, pol in enclosing_atoms(rn.ast):
+            r = fv.res.resolve(raw, rn.id)
+            if not (isinstance(r, ast.Compare) and len(r.ops) == 1):
+                continue
+            a, b = r.left, r.comparators[0]
+            for side, other, flip in ((a, b, False), (b, a, True)):
+                d = dim_of(side)
+                if d is None:
+                    continue
+                plate, axis = d
+                op = type(r.ops[0])
+                # the raise is reached when  dim < bound  (written in any of the equivalent ways)
+                less = (op is ast.Lt and pol and not flip) or (op is ast.GtE and not pol and not flip) or (op is ast.Gt and pol and flip) or (op is ast.LtE and not pol and flip)
+                want = "R" if axis == "rows" else "C"
+                ok = less and isinstance(other, ast.Attribute) and is_name(other.value, selfn) and other.attr == want
+                c = f"{f.qualname}/{plate}.{axis}"
+                seen[(plate, axis)] = True
+                ctx.rep.check(ok, rule, c, f"{plate} is refused exactly when it has fewer {axis} than the plan (self.{want})",
+                              f"{plate} is refused when `{show(r)[:70]}` is {pol}: the {axis} of the plate are not compared with the plan's own self.{want} - a plate that has room for the plan is "
+                              "refused (or one that is too small is accepted)", where=f.where(rn.ast))
+    ctx.rep.floor(rule, "plate-size guards of to_worklist", len(seen), 4)
